@@ -193,6 +193,9 @@ package kv
 //@   ensures strict: forall j int :: imp(err == nil && !skipUnreadable && 0 <= j && j < len(roots), has(result1, roots[j]))
 //@   ensures tree: imp(err == nil, result0 != nil && fresh(result0) && result0.Mast != nil && fresh(result0.Mast) && result0.Created != nil && result1 != nil && fresh(result1))
 //@   ensures failed: imp(err != nil, result0 == nil)
+// a version is recorded as merged (and will therefore be retired by the commit that follows)
+// only when the tree really contains it: every key of that version is in the tree
+//@   at mapupdate assert recorded-version-is-contained: forall a int :: imp(has(T(*graft.Mast), a), has(T(*tree.Mast), a))
 //@   loop 1 modifies contents(mergedRoots), *maxVersion
 //@   loop 1 invariant -1 <= rangeindex && rangeindex < len(roots_cur) && mergedRoots != nil && fresh(mergedRoots) && len(roots_cur) == len(roots) && fresh(roots_cur)
 //@   loop 1 invariant imp(tree != nil, fresh(tree) && tree.Mast != nil && fresh(tree.Mast))
